@@ -38,6 +38,42 @@ checks["C15"] = dict(
    technique="bounded-exhaustive model checking: every pattern of <= 3-4 tokens over a 25-token alphabet (malformed included) x every subject up to a length bound over a 3-letter alphabet x every init, through find/match/gmatch/gsub (13 replacement variants) and the Go pattern API, against a definitional backtracking matcher (refpattern)",
    text="All token sequences up to the bound are compiled and matched by the real lib/stringlib/pattern and string.find/match/gmatch/gsub against every subject and every start position (incl. omitted, negative, past the end); span, captures (position captures as integers), gmatch iteration sequence, gsub result string and count (string/table/function replacements, %0..%2, n = 0..3) must equal the reference; a malformed pattern must raise a Lua error or fail to match, never match, never panic; character classes are compared on every byte 0..127; CPU: under small CPU limits pathological backtracking is killed, a run that completes never used more than its limit, and work that necessarily grows with the subject is charged.",
    note="Trusted: refpattern (definitional matcher typed from manual 6.4.1). Skipped as unspecified: gmatch with a leading ^, %f not followed by a set, more than 9 captures, locale dependent classes beyond ASCII.")
+
+checks["C01"] = dict(
+   level="model_checking", design="§4 C01",
+   technique="bounded-exhaustive model checking of the whole pipeline (scanner, parser, AST->IR->bytecode compiler, VM): every program of 20 index-addressable grammar families, in several textual renderings, against a definitional reference interpreter (reflua) that evaluates the checker's own AST",
+   text="Families F1-F9 (scoping and closures incl. fresh variables per loop iteration, call protocol: params x returns x args x receiving contexts with varargs and multi-value tails, jumps: goto/labels/break/return with closures captured across jumps, all operators x operand kinds with metamethods and coercions, __index/__newindex/__call chains, multiple assignment, generic for with closing value, deep expressions exceeding the register pool, a hand-written corpus) are enumerated exhaustively up to their size bounds (quick ~90k programs, thorough several 100k, per-family budget caps reported as exhaustive:false); each program is rendered in >= 2 (quick) / 6 (thorough) spellings, compiled three times (the compiler iterates Go maps) and run in a fresh runtime; the emit trace, results and error value (with chunk:line: for error() at level 1/2) must equal reflua's.",
+   note="Trusted: reflua and the generator discipline that removes everything the manual leaves open (evaluation order between unsequenced operands, pairs order, # with holes, float formatting, addresses, __gc). VM-generated error texts are not compared.")
+checks["C03"] = dict(
+   level="model_checking", design="§4 C03, §1.3",
+   technique="explicit-state model checking of the real table implementation: BFS over operation histories (successor = replay on a fresh rt.Table or Lua table + 1 op), dedup on the concrete slot layout dumped by a read-only hook with keys named by role, lock-step with a map reference model (reftable)",
+   text="Histories of Set/Reset(value nil,1,2) and traversal steps (walk to a key, step, assign-existing / clear-current / clear-other during a traversal) over per-process role-chosen keys (three keys forced into one primary slot of a 16/32/64-slot hash part, relocation targets, ints 0,-1,1..9, 2^53, 2^62 and their float spellings, +-0.0, 1.5, NaN, short/long strings, booleans, tables, closures equal by structure, Go functions) from empty and from pre-grown start states (8,9,16,17,33 keys; int-only, string-only, mixed, with tombstones) to depth 3-5 (quick) / 4-7 (thorough), 5-key menus to depth 8/12. In EVERY state: structural invariants I1-I3, array length, no key stored twice; Get equals the reference for 54 probe keys under every equal spelling; Len is a border; a full traversal visits every present key exactly once, no absent key, terminates, never 'invalid key'; value equality and key equality agree for all pairs of 78 values. Lua level: the same histories through t[k]=v, rawset, rawget, next, pairs with a logging __index/__newindex metatable (fires iff the raw key is absent), under a CPU limit.",
+   note="Trusted: reftable; the read-only VerifLayout/VerifCheckInvariants hooks. Slot layouts differ per process (random hash seed): keys are chosen by role per process, verdicts and violation keys do not depend on them. Budget-cut sub-searches are reported (exhaustive:false).")
+checks["C05"] = dict(
+   level="model_checking", design="§4 C05, §1.4",
+   technique="exhaustive fault-point enumeration: every program of an interception-nesting family is run under EVERY CPU limit L in 1..u+1 (u = its own usage), twice; plus bounded enumeration of library amplification templates under small limits",
+   text="1311 (quick) / 10131 (thorough) programs = 9 charge granularities (1 unit per VM step ... 150-unit bulk charges by one library call) wrapped in every nesting to depth 2/3 of 14 interception wrappers (pcall, xpcall with looping handler, retry loops, coroutine.wrap/resume, <close> handlers, nested callcontext with smaller/larger limits, caught errors); each compiled once and run in a fresh runtime at every L (0.86M / 5.7M (P,L) states): killed iff L <= u, otherwise identical observation; when killed the trace is a prefix, no Lua code of the context runs afterwards (tick/emit record the status of every context in the chain), used < L, deterministic, monotone. Non-terminating workloads must be killed at every L in 1..400. 93 library templates with size parameters up to 2^40 (2^63-1 thorough) and element sizes 0/1/100 under {cpu=1e4,memory=1e5}: deterministic outcome and < 10 s process CPU time per call.",
+   note="The 'real work between ticks' bound is decided only through the template list and a coarse process-CPU-time threshold (4 orders of magnitude above the honest cost); the deterministic part (kill/prefix/exactness) is what is exhaustive.")
+checks["C06"] = dict(
+   level="model_checking", design="§4 C06, §1.4",
+   technique="exhaustive limit sweeps: every program of an allocating-workload x interception-nesting family under every memory limit M (all M below 4 KB; bisection plus every M within +-64 of each verdict flip above), cross-context coroutine programs in child processes, and enumeration of allocation-amplification templates",
+   text="1464 (quick) / 6552 (thorough) programs = 12 allocating workloads x nestings of depth 0-2 (pcall, xpcall+handler, pcall loop, coroutine forms, <close> with and without allocating handler, nested callcontext, __index, caught error): verdict monotone in M, identical observation for all M >= threshold, killed runs are a prefix and nothing runs after (host markers on every failure path), used < M, context stack restored and an epilogue works; 49 programs with a coroutine created in one context and finished/closed/started/yielding in another, each run in a child process (a Go panic such as 'Too much mem released' is a violation); 115 templates x N in {1e3..2^40} x M in {1e4,1e5}: the child survives, runtime.MemStats.TotalAlloc delta <= 64*M + 8 MB, used < M. Budget capped per family (exhaustive:false reported).",
+   note="TotalAlloc is GC independent; the 64*M + 8 MB margin is the only non-deterministic threshold. Limits >= 2^63 are excluded (display wraps, C07's subject).")
+checks["C08"] = dict(
+   level="model_checking", design="§4 C08",
+   technique="bounded-exhaustive enumeration: every Go function reachable from the global environment (graph walk at check time) x all 16 required-flag subsets x an IO-oriented argument pool x 7 call spellings, with a sentinel-directory / child-process oracle and, thorough, a syscall trace (strace) oracle",
+   text="153 functions found by walking _G, package.loaded, the string metatable and the results of producer calls (iterators, file handles, wrap functions, context objects); declared flags read from the function object. For every (function, required flags, argument tuple, spelling in {direct, tail call, pcall, __index/__call/__concat metamethod, inside a coroutine, as coroutine body, via load}): if required is not a subset of declared the call must raise an ordinary Lua error before any effect (no callback ran, arguments and a sentinel directory unchanged, no child process, secret file content not returned) and the context stays live; whenever iosafe is required, for ANY outcome, the sentinel is unchanged, no process was started (wait4 + RUSAGE_CHILDREN), the secret never appears in results, errors, returned handles or iterators. Thorough: the same regions under strace -f: any execve, write-mode open, open under the sentinel, unlink/rename/mkdir, socket or connect inside an iosafe region is a violation. Budget capped (functions that do not declare all flags first).",
+   note="The static 'all call paths to an OS primitive' reading of the property is not attempted (different technique). A file handle opened by the host before the context stays usable inside iosafe (golua documents this as a capability grant).")
+checks["C17"] = dict(
+   level="model_checking", design="§4 C17",
+   technique="bounded-exhaustive model checking of serialisation round trips: all pack format sequences up to 2 (quick) / 3 (thorough) options x boundary value tuples against the round-trip laws and a byte-layout reference (refpack); all byte strings up to length 2/3 over a 20-class alphabet and lattice numbers through %q and load; tostring/tonumber over a float lattice; integer and string printf directives against an independent C-printf implementation (refstr)",
+   text="594k (quick) / 41.6M (thorough) evaluations: unpack(fmt, pack(fmt, v...)) == v... and next position == len+1; packsize == length for fixed-size formats; byte layout for fixed-size formats equals refpack; errors where the manual demands them (overflow, malformed options, embedded zero for z, too long for s[n], alignment not a power of 2); unpack at every init offset, on truncated data and with huge length prefixes must raise, never panic or exhaust memory; load('return '..format('%q', v))() == v with the same subtype for every string, integer (incl. mininteger) and float (incl. +-inf, NaN, -0.0); tonumber(tostring(n)) == n; %d %i %u %c %x %X %o %s with flags - + space # 0, width and precision equal C printf output; %e %f %g %a compared where the C output is exact; incomplete or invalid specifications must raise.",
+   note="Trusted: refpack, refstr (cross-checked at development time against PUC-Lua 5.3.6 on the common subset). Native sizes are platform defined: golua's choice is accepted but pack, packsize and unpack must agree. Cases the manual leaves open only require 'no Go panic'.")
+checks["C19"] = dict(
+   level="model_checking", design="§4 C19",
+   technique="bounded-exhaustive model checking: string functions over all strings of length <= 3 over {a,b,NUL,...} x positions {minint, -len-2..len+2, maxint} x counts; table functions over all sequences of length <= 4 (with holes, with logging proxy metatables); table.sort over every arrangement of every multiset up to n <= 6/7 x 14 comparators; against reference models refstr19/reftab",
+   text="352k (quick) / 4.1M (thorough) cases in 23 families: sub, byte, char, rep (with separator, negative, zero, huge counts), reverse, upper, lower, len, plain find (incl. magic characters); insert, remove, move (incl. overlapping and ranges touching min/maxinteger), concat, unpack, pack with and without __index/__newindex/__len proxies (the log of metamethod calls is compared too), float arguments (integral accepted, others rejected); sort: result is a permutation of the input, ordered when the comparator is a strict weak order, terminates under a CPU limit, never loses or duplicates an element, errors and yields in comparators propagate; all 0/1 sequences of length 13-16 and structured inputs up to length 308. Calls whose defined work is tiny must not be killed by a 10M CPU limit; calls over > 64 elements up to maxinteger may be.",
+   note="Trusted: refstr19, reftab. Strings containing well-formed multi-byte UTF-8 are skipped for upper/lower (locale dependent). One case (string.rep of empty strings maxinteger times) carries a 5 s guard so that a hang is reported rather than blocking the check.")
 not_yet = {}
 m = {
  "version": 1,
